@@ -402,6 +402,9 @@ def _hdd(case, world, d, bad, keys, probes):
         images = []
         for i, g in enumerate(guids):
             fname = "%s.hdd.%d.%s.hds" % (case["fname"], j, g)
+            # file names are element text: leading and trailing blanks belong to the name (a fraction of the images gets them)
+            edge = (case["shuffle"] + 3 * j + i) % 7
+            fname = " " + fname if edge == 0 else fname + " " if edge == 1 else "\u00a0" + fname if edge == 2 else fname
             lay = Layer(10 + i, c["nsectors"], c["cluster"])
             if case["types"][i] == "Plain":
                 img = WH.render_plain(lay, View([lay]), fname)
